@@ -597,6 +597,8 @@ func runC19(c *Ctx) {
 	// R7: what is served is what is advertised
 	checkDecodedOnlyIfConfigured(c, "R7")
 	checkFailedConstructionReleasesSession(c, "R8")
+	// R9 (shared with C07.R16): an unknown extended request keeps the session — nobody dereferences its nil specific packet
+	checkSpecificPacketGuarded(c, "R9")
 }
 
 // checkDecodedOnlyIfConfigured (C19.R7): "advertised ⊆ served" is R5; this is the converse.  The extended-request
